@@ -7,22 +7,27 @@ From PV Require Import Proofs.C13Int Proofs.C13Main Proofs.C17Facts Proofs.C17To
 Import ListNotations.
 Open Scope Z_scope.
 
-(* 1. The compiled backend, every string, every option combination, any dateutil that itself only returns a datetime or raises
-   ValueError: pendulum.parse returns a value or raises ValueError/ParserError EXCEPT on the characterised regions —
-   TypeError / AttributeError only if an interval has an endpoint that is not a date-time; OverflowError only if a duration does not fit a timedelta or the interval arithmetic
-   (on date-time endpoints) leaves years 1..9999.  No other exception kind (no out-of-fuel, no RuntimeError) is possible. *)
+(* 1. parse_total, compiled backend, at full strength: EVERY string, EVERY option combination, any dateutil that itself only returns a
+   datetime or raises ValueError or OverflowError (dateutil does raise OverflowError on long digit runs): pendulum.parse returns a
+   supported value or raises ValueError/ParserError — nothing else.  No TypeError (COMMON's minute group is mandatory; an interval
+   endpoint that is not a date or date-time is rejected, a date next to a duration is taken at midnight), no AttributeError, no
+   OverflowError (a duration that does not fit a timedelta, interval arithmetic that leaves years 1..9999 and dateutil's own
+   OverflowError are answered with ParserError), no out-of-fuel, no RuntimeError. *)
 Theorem parse_total_rs : forall (du : list Z -> bool -> bool -> result pval),
-  (forall s a b, out_ok (du s a b)) ->
-  forall o s,
-    match parse_full du true o s with
-    | Ok _ => True
-    | Raise E_ValueError | Raise E_ParserError => True
-    | Raise E_TypeError | Raise E_AttributeError => interval_nondt true s = true
-    | Raise E_OverflowError => rs_duration_overflow s = true \/ (interval_ok true s = true /\ interval_nondt true s = false)
-    | Raise _ => False
-    end.
-Proof. exact parse_total_rs_all. Qed.
+  (forall s a b, match du s a b with Ok _ | Raise E_ValueError | Raise E_ParserError | Raise E_OverflowError => True | Raise _ => False end) ->
+  forall o s, out_ok (parse_full du true o s).
+Proof.
+  intros du H o s. assert (H' : forall s a b, exn_in [E_ValueError; E_ParserError; E_OverflowError] (du s a b)).
+  { intros s0 a b. specialize (H s0 a b). destruct (du s0 a b) as [|e]; [exact I|]. destruct e; try contradiction; simpl; auto. }
+  pose proof (parse_total_rs_all du H' o s) as T. destruct (parse_full du true o s) as [|e]; [exact I|]. destruct e; exact T.
+Qed.
 Print Assumptions parse_total_rs.
+
+(* the hypothesis on dateutil is satisfiable and the conclusion is not vacuous: with the OverflowError-raising oracle of theorem 8 *)
+Example parse_total_rs_hyps :
+  (forall s a b, match du_overflow s a b with Ok _ | Raise E_ValueError | Raise E_ParserError | Raise E_OverflowError => True | Raise _ => False end)
+  /\ out_ok (parse_full du_overflow true opts_lax s_digits20).
+Proof. split; [intros; exact I|]. rewrite (proj1 (w_dateutil true)). exact I. Qed.
 
 (* 2. parse_iso8601 of the compiled backend (descent + pyo3 glue + duration loop with its fuel) on every string *)
 Theorem rs_iso8601_total : forall s, out_ok (rs_iso8601 s).
@@ -49,22 +54,34 @@ Theorem minute_absent_rejected : forall du rs, parse_full du rs opts0 s_2colon =
 Proof. intros du rs. apply (w_minute_absent du rs). Qed.
 Print Assumptions minute_absent_rejected.
 
-(* 5. parse_total is false of the code: TypeError ("2021-01-01/P1D", "P1D/2021-01-01", "12:00/13:00"), AttributeError ("P1D/P1D"),
-   OverflowError ("P99999999999D", "2021-01-01T00:00:00/P3000000D", "0001-01-01T00:00:00+01:00/PT1H"), both backends, any dateutil *)
-Theorem parse_total_refuted : forall du rs,
-  parse_full du rs opts0 s_date_dur = Raise E_TypeError /\ parse_full du rs opts0 s_dur_date = Raise E_TypeError /\
-  parse_full du rs opts0 s_time_time = Raise E_TypeError /\ parse_full du rs opts0 s_dur_dur = Raise E_AttributeError /\
-  parse_full du rs opts0 s_big = Raise E_OverflowError /\
-  parse_full du rs opts0 s_iv_over = Raise E_OverflowError /\ parse_full du rs opts0 s_iv_under = Raise E_OverflowError.
-Proof.
-  intros du rs. destruct (w_interval_endpoints du rs) as [C [D [E F]]].
-  destruct (w_interval_overflow du rs) as [G H]. repeat split; auto using w_too_large.
-Qed.
-Print Assumptions parse_total_refuted.
+(* 5. interval endpoints, both backends, any dateutil: a date next to a duration is taken at midnight ("2021-01-01/P1D" is
+   [2021-01-01T00:00 -> 2021-01-02T00:00], "P1D/2021-01-01" is [2020-12-31T00:00 -> 2021-01-01T00:00]); an endpoint that is a time or a
+   duration is not an interval ("12:00/13:00", "P1D/P1D": ParserError).  These were the TypeError / AttributeError witnesses. *)
+Theorem interval_endpoints_checked : forall du rs,
+  parse_full du rs opts0 s_date_dur = Ok (V_ival 1 (mkp 1 2021 1 1 0 0 0 0 (Some 0)) (mkp 1 2021 1 2 0 0 0 0 (Some 0))) /\
+  parse_full du rs opts0 s_dur_date = Ok (V_ival 1 (mkp 1 2020 12 31 0 0 0 0 (Some 0)) (mkp 1 2021 1 1 0 0 0 0 (Some 0))) /\
+  parse_full du rs opts0 s_time_time = Raise E_ParserError /\ parse_full du rs opts0 s_dur_dur = Raise E_ParserError.
+Proof. intros du rs. exact (w_interval_endpoints du rs). Qed.
+Print Assumptions interval_endpoints_checked.
+
+(* ... and in general, either backend, any parse_iso8601: every form _parse_iso8601_interval returns has date or date-time endpoints
+   (start/end) or a date-time endpoint (next to a duration), which is what the assembly in parser.py requires *)
+Theorem interval_forms_have_datetime_endpoints : forall iso s f, interval_parse iso s = Ok f -> all_dt f = true.
+Proof. exact interval_parse_dt. Qed.
+Print Assumptions interval_forms_have_datetime_endpoints.
+
+(* 5b. values that do not fit are REJECTED, both backends, any dateutil: "P99999999999D" (more than timedelta's 999999999 days),
+   "2021-01-01T00:00:00/P3000000D" (the computed end leaves year 9999), "0001-01-01T00:00:00+01:00/PT1H" (the UTC-shifted start
+   leaves year 1) raise ParserError; in general see theorem 1 (no OverflowError on any string) and C13's dur_too_large_rejected *)
+Theorem out_of_range_rejected : forall du rs,
+  parse_full du rs opts0 s_big = Raise E_ParserError /\
+  parse_full du rs opts0 s_iv_over = Raise E_ParserError /\ parse_full du rs opts0 s_iv_under = Raise E_ParserError.
+Proof. intros du rs. destruct (w_interval_overflow du rs) as [G H]. repeat split; auto using w_too_large. Qed.
+Print Assumptions out_of_range_rejected.
 
 (* 6. no_wrapped_value: refuted by "P4294967297D" (one day with the compiled parser, also inside an interval) ... *)
 Theorem no_wrapped_value_refuted : forall du,
-  parse_full du true opts0 s_wrap = Ok (V_dur (0, 0, 1, 0, 0)) /\ parse_full du false opts0 s_wrap = Raise E_OverflowError /\
+  parse_full du true opts0 s_wrap = Ok (V_dur (0, 0, 1, 0, 0)) /\ parse_full du false opts0 s_wrap = Raise E_ParserError /\
   parse_full du true opts0 s_iv_wrap = Ok (V_ival 1 (mkp 1 2021 1 1 0 0 0 0 (Some 0)) (mkp 1 2021 1 2 0 0 0 0 (Some 0))).
 Proof. exact w_wrap. Qed.
 Print Assumptions no_wrapped_value_refuted.
@@ -89,29 +106,49 @@ Theorem strict_rejects_outside_forms_partial : forall du1 du2 rs o s, o_strict o
 Proof. intros du1 du2 rs o s H. split; [apply strict_no_oracle, H|apply oracle_independent, strict_no_oracle, H]. Qed.
 Print Assumptions strict_rejects_outside_forms_partial.
 
-(* 8. when the fallback IS reached (strict=False) parse returns exactly what dateutil returns, ValueError becomes ParserError and any
-   other exception escapes unchanged ... *)
+(* 8. when the fallback IS reached (strict=False) parse returns exactly what dateutil returns, unless that datetime carries a UTC offset
+   of 24 h or more (dt.utcoffset() raises ValueError inside the try: ParserError); ValueError AND OverflowError become ParserError; any
+   other exception kind would escape unchanged ... *)
 Theorem oracle_delivery : forall du rs o s, reaches_oracle rs o s = true -> is_now s = false ->
   parse_full du rs o s = match du s (o_day_first o) (o_year_first o) with
-                         | Ok p => finish rs o (normalize o (R_i (I_p p)))
-                         | Raise E_ValueError | Raise E_ParserError => Raise E_ParserError
+                         | Ok p => if match p_off p with Some z => bad_off z | None => false end then Raise E_ParserError
+                                   else finish rs o (normalize o (R_i (I_p p)))
+                         | Raise E_ValueError | Raise E_ParserError | Raise E_OverflowError => Raise E_ParserError
                          | Raise e => Raise e
                          end.
 Proof. exact oracle_reached. Qed.
 Print Assumptions oracle_delivery.
 
-(* ... so a dateutil that raises OverflowError (it does, on 20 digits) breaks totality under strict=False only *)
-Theorem dateutil_escape_refuted : forall rs,
-  parse_full du_overflow rs opts_lax s_digits20 = Raise E_OverflowError /\ parse_full du_overflow rs opts0 s_digits20 = Raise E_ParserError.
+(* ... so a dateutil that raises OverflowError (it does, on 20 digits) is answered with ParserError: the fallback is reached for the
+   20-digit text under strict=False, and both option sets end in ParserError *)
+Theorem dateutil_overflow_rejected : forall rs,
+  parse_full du_overflow rs opts_lax s_digits20 = Raise E_ParserError /\ reaches_oracle rs opts_lax s_digits20 = true /\
+  parse_full du_overflow rs opts0 s_digits20 = Raise E_ParserError.
 Proof. exact w_dateutil. Qed.
-Print Assumptions dateutil_escape_refuted.
+Print Assumptions dateutil_overflow_rejected.
 
-(* 9. offsets: "-25:00" and "+24:00" are accepted by both backends and delivered inside a DateTime whose utcoffset() raises *)
-Theorem offset_in_range_refuted : forall du rs,
-  parse_full du rs opts0 s_m25 = Ok (V_p (mkp 1 2021 1 1 0 0 0 0 (Some (-90000)))) /\
-  parse_full du rs opts0 s_p24 = Ok (V_p (mkp 1 2021 1 1 0 0 0 0 (Some 86400))) /\ bad_off (-90000) = true /\ bad_off 86400 = true.
+(* 9. offsets of 24 h and more are rejected: "-25:00" and "+24:00" raise ParserError with both backends, "-23:59" / "+23:59" are
+   accepted ... *)
+Theorem offset_out_of_range_rejected : forall du rs,
+  parse_full du rs opts0 s_m25 = Raise E_ParserError /\ parse_full du rs opts0 s_p24 = Raise E_ParserError /\
+  parse_full du rs opts0 (s_dt ++ [45;50;51;58;53;57]) = Ok (V_p (mkp 1 2021 1 1 0 0 0 0 (Some (-86340)))) /\
+  parse_full du rs opts0 (s_dt ++ [43;50;51;58;53;57]) = Ok (V_p (mkp 1 2021 1 1 0 0 0 0 (Some 86340))) /\
+  bad_off (-90000) = true /\ bad_off 86400 = true /\ bad_off 86340 = false /\ bad_off (-86340) = false.
 Proof. exact w_offset. Qed.
-Print Assumptions offset_in_range_refuted.
+Print Assumptions offset_out_of_range_rejected.
+
+(* ... the compiled parser's offset recogniser, on EVERY text: an accepted offset is strictly between -24 h and +24 h ... *)
+Theorem rs_offset_in_range : forall s o r, rs_offset s = Some (Some o, r) -> bad_off o = false.
+Proof. exact rs_offset_in_range. Qed.
+Print Assumptions rs_offset_in_range.
+
+(* ... and a datetime handed over by dateutil with such a tzoffset is answered with ParserError (oracle_delivery, first case).
+   _partial: the statement "every DateTime returned by parse has |utcoffset| < 24 h" for all strings is not assembled — missing: the
+   propagation of rs_offset_in_range through the compiled descent (rs_parse_iso) and the same bound for the pure-Python py_tz_offset
+   on the capture records of ISO8601_DT (digits only); both are exercised by the correspondence run and the offset oracle *)
+Theorem offset_in_range_partial : forall rs, parse_full du_off24 rs opts_lax s_digits20 = Raise E_ParserError.
+Proof. exact w_dateutil_offset. Qed.
+Print Assumptions offset_in_range_partial.
 
 (* 10. both backends accept "9999/0101" under strict=True and return different values (an interval of two years / a date) *)
 Theorem backends_agree_when_both_accept_refuted : forall du,
